@@ -502,6 +502,30 @@ def rule_key_encoding_always_judged(ctx: Ctx, rep: Report) -> None:
     rep.floor(rule, 3)
 
 
+def rule_der_shape_only(ctx: Ctx, rep: Report) -> None:
+    """C08.der_shape_only: Core's CheckSignatureEncoding judges the *shape* of a
+    signature (IsValidSignatureEncoding: strict DER) and, under LOW_S, its s;
+    whether r and s are in 1..n-1, or r an x-coordinate at all, is the
+    verification's business, which answers false -- `<sig with r = 5> <key>
+    CHECKSIG NOT` succeeds under DERSIG. fix_signature, which is the engine's
+    CheckSignatureEncoding, therefore parses without validating the values
+    (`check_validity=False`): a parse that validates turns a failed
+    verification into a script error."""
+    rule = "C08.der_shape_only"
+    fi = ctx.func(f"{ENG}.script.fix_signature")
+    n = 0
+    for c in own_nodes(fi.node):
+        if isinstance(c, ast.Call) and norm(c.func) == "Sig.parse":
+            lax = any(k.arg == "strict" and isinstance(k.value, ast.Constant) and k.value.value is False for k in c.keywords)
+            if lax:
+                continue
+            n += 1
+            ok = any(k.arg == "check_validity" and isinstance(k.value, ast.Constant) and k.value.value is False for k in c.keywords)
+            rep.ob(rule, "fix_signature:strict_parse", ok, fi.where(c), "the strict parse judges the encoding only" if ok else
+                   f"`{norm(c)}` validates r and s as well as the encoding: a DER-valid signature with r or s out of range (or r no x-coordinate) ends the script under DERSIG/LOW_S/STRICTENC, where Core pushes false")
+    rep.floor(rule, 1)
+
+
 # ---------------------------------------------------------------------------
 def rule_flags(ctx: Ctx, rep: Report) -> None:
     """C08.flags: the flag enum is Core's, and every flag is consulted by the engine."""
@@ -844,6 +868,7 @@ def rule_foreign_errors(ctx: Ctx, rep: Report) -> None:
 
 
 RULES = [
+    ("C08.der_shape_only", rule_der_shape_only),
     ("C08.key_encoding_always_judged", rule_key_encoding_always_judged),
     ("C08.strictenc_hashtypes", rule_strictenc_hashtypes),
     ("C08.sigops_charge", rule_sigops_charge),
